@@ -416,7 +416,8 @@ package libinjection
 // =====================================================================================
 
 //@ spec wfT(t *sqliToken) bool = 0 <= t.len && t.len <= 31 && t.len == len(t.val) && 0 <= t.pos &&
-//@      (t.category == sqliTokenTypeFunction ==> t.len >= 2)
+//@      (t.category == sqliTokenTypeFunction ==> t.len >= 2) &&
+//@      (t.category == sqliTokenTypeComment ==> t.len >= 1 && (t.val[0] != '#' ==> t.len >= 2))
 //@ spec zeroT(t *sqliToken) bool = t.category == 0 && t.len == 0 && t.pos == 0 && t.count == 0 && t.strOpen == 0 && t.strClose == 0 && len(t.val) == 0
 //@ spec curOK(s *sqliState) bool = 0 <= tvIndex(s, s.current) && tvIndex(s, s.current) < 8
 //@ spec wfS0(s *sqliState) bool = 0 <= s.pos && s.pos <= s.length && s.length == len(s.input) && curOK(s)
@@ -462,6 +463,8 @@ package libinjection
 //@   ensures  result == 0 || inSigma(result)
 //@   ensures  @fn2 result == sqliTokenTypeFunction ==> len(key) >= 2
 //@   ensures  @nonempty result != 0 ==> len(key) >= 1
+//@   ensures  @nocomment result != sqliTokenTypeComment
+//@   ensures  @fp3 result == sqliTokenTypeFingerprint && len(key) == 3 && key[0] < 128 && key[1] < 128 && key[2] < 128 ==> up(key[2]) == 'C' || up(key[2]) == 'U'
 
 //@ func isBackslashEscaped
 //@   modifies nothing
@@ -499,7 +502,7 @@ package libinjection
 //@   loop 1 decreases len(str)
 
 //@ func parseEolComment
-//@   requires wfS(s) && s.pos < s.length
+//@   requires wfS(s) && s.pos < s.length && (s.input[s.pos] == '#' || (s.input[s.pos] == '-' && s.pos + 1 < s.length && s.input[s.pos+1] == '-'))
 //@   modifies s.current.category, s.current.pos, s.current.len, s.current.val
 //@   ensures  [C01 C16] @lex lexOK(s, result) && s.current.category == sqliTokenTypeComment && s.current.pos == old(s.pos)
 
@@ -656,7 +659,7 @@ package libinjection
 //@   requires wfT(tokenA) && wfT(tokenB)
 //@   modifies tokenA.category, tokenA.pos, tokenA.len, tokenA.val
 //@   ensures  wfT(tokenA) && tokenA.pos == old(tokenA.pos)
-//@   ensures  [C01 C08] @class result ==> inSigma(tokenA.category) && tokenA.category != 0
+//@   ensures  [C01 C08] @class result ==> inSigma(tokenA.category) && tokenA.category != 0 && tokenA.category != sqliTokenTypeComment
 //@   ensures  !result ==> tokenA.category == old(tokenA.category) && tokenA.len == old(tokenA.len) && aliases(tokenA.val, old(tokenA.val))
 
 //@ spec toks5wf(s *sqliState) bool = wfT(s.tokenVec[0]) && wfT(s.tokenVec[1]) && wfT(s.tokenVec[2]) && wfT(s.tokenVec[3]) && wfT(s.tokenVec[4])
@@ -675,25 +678,84 @@ package libinjection
 //@ spec rankC(c int) int = c == 'k' ? 3 : ((c == 'n' || c == 'v' || c == 'o') ? 2 : (c == 'f' ? 1 : 0))
 //@ spec rkAt(s *sqliState, pos int, i int) int = i < pos ? rankC(catAt(s, i)) : 0
 //@ spec foldPhi(s *sqliState, pos int) int = rkAt(s, pos, 0) + rkAt(s, pos, 1) + rkAt(s, pos, 2) + rkAt(s, pos, 3) + rkAt(s, pos, 4) + rkAt(s, pos, 5)
+//@ spec tokEnd(s *sqliState, i int) int = s.tokenVec[i].pos + s.tokenVec[i].len
+//@ spec sigAt(s *sqliState, pos int, i int) bool = i < pos ==> inSigma(catAt(s, i)) && catAt(s, i) != sqliTokenTypeComment
+//@ spec winSigma(s *sqliState, pos int) bool = sigAt(s, pos, 0) && sigAt(s, pos, 1) && sigAt(s, pos, 2) && sigAt(s, pos, 3) && sigAt(s, pos, 4) && sigAt(s, pos, 5)
+//@ spec ordAt(s *sqliState, pos int, i int, lim int) bool = i < pos ==> tokEnd(s, i) <= lim
+//@ spec winBefore(s *sqliState, pos int, lim int) bool = ordAt(s, pos, 0, lim) && ordAt(s, pos, 1, lim) && ordAt(s, pos, 2, lim) && ordAt(s, pos, 3, lim) && ordAt(s, pos, 4, lim) && ordAt(s, pos, 5, lim)
+//@ spec foldWin(s *sqliState, pos int, lc *sqliToken) bool = winSigma(s, pos) && (lc.category == 0 || lc.category == sqliTokenTypeComment) &&
+//@      0 <= s.statsFolds && s.statsFolds + pos + (lc.category == sqliTokenTypeComment ? 1 : 0) <= s.statsTokens &&
+//@      (s.statsFolds == 0 ==> winBefore(s, pos, s.pos) && (lc.category == sqliTokenTypeComment ==> lc.pos + lc.len <= s.pos && winBefore(s, pos, lc.pos)))
 //@ spec foldM1(s *sqliState, more bool) int = s.length - s.pos + (more ? 1 : 0)
 //@ func (*sqliState).fold
 //@   requires wfS(s) && statsOK(s) && 0 <= s.statsFolds && s.statsFolds <= s.statsTokens
 //@   modifies s.pos, s.current, s.statsTokens, s.statsFolds, s.statsCommentDDX, s.statsCommentHash, s.tokenVec[*].*
 //@   ensures  wfS(s) && statsOK(s) && aliases(s.input, old(s.input)) && s.length == old(s.length) && s.flags == old(s.flags)
 //@   ensures  [C01 C08] @count 0 <= result && result <= 6 && (result == 6 ==> s.tokenVec[5].category == sqliTokenTypeEvil)
+//@   ensures  [C01 C08] @classes forall i in [0, result): inSigma(catAt(s, i)) && (catAt(s, i) == sqliTokenTypeComment ==> i == result - 1)
+//@   ensures  [C01] @stats 0 <= s.statsFolds && s.statsFolds + result <= s.statsTokens
+//@   ensures  [C01] @order s.statsFolds == 0 && result >= 2 && catAt(s, result - 1) == sqliTokenTypeComment ==>
+//@                 tokEnd(s, 0) <= s.tokenVec[result - 1].pos && tokEnd(s, result - 1) <= s.length
 //@   loop 1 invariant wfS(s) && statsOK(s) && s.current == tv(s, 0) && aliases(s.input, old(s.input)) && s.length == old(s.length) && s.flags == old(s.flags) &&
 //@                    s.statsFolds == old(s.statsFolds) && s.statsFolds <= s.statsTokens && pos == 0 && left == 0 && lastComment.category == 0
 //@   loop 1 decreases s.length - s.pos + (more ? 1 : 0)
 //@   loop 2 invariant wfS(s) && statsOK(s) && aliases(s.input, old(s.input)) && s.length == old(s.length) && s.flags == old(s.flags) &&
-//@                    0 <= left && left <= pos && pos <= 6 && wfT(lastComment) && 0 <= s.statsFolds && s.statsFolds + pos <= s.statsTokens
+//@                    0 <= left && left <= pos && pos <= 6 && wfT(lastComment) && foldWin(s, pos, lastComment)
 //@   loop 2 decreases foldM1(s, more), pos, foldC(s, pos), 6 - left, foldPhi(s, pos)
 //@   loop 3 invariant wfS(s) && statsOK(s) && aliases(s.input, old(s.input)) && s.length == old(s.length) && s.flags == old(s.flags) &&
-//@                    0 <= left && left <= pos && pos <= 6 && left < 5 && wfT(lastComment) && 0 <= s.statsFolds && s.statsFolds + pos <= s.statsTokens
+//@                    0 <= left && left <= pos && pos <= 6 && left < 5 && wfT(lastComment) && foldWin(s, pos, lastComment)
 //@   loop 3 invariant (foldM1(s, more) < outer(foldM1(s, more)) || (foldM1(s, more) == outer(foldM1(s, more)) && more == outer(more) && (pos < outer(pos) || (pos == outer(pos) &&
 //@                    (foldC(s, pos) < outer(foldC(s, pos)) || (foldC(s, pos) == outer(foldC(s, pos)) && left == outer(left) && foldPhi(s, pos) <= outer(foldPhi(s, pos))))))))
 //@   loop 3 decreases s.length - s.pos + (more ? 1 : 0)
 //@   loop 4 invariant wfS(s) && statsOK(s) && aliases(s.input, old(s.input)) && s.length == old(s.length) && s.flags == old(s.flags) &&
-//@                    0 <= left && left <= pos && pos <= 6 && left < 5 && 2 <= pos - left && wfT(lastComment) && 0 <= s.statsFolds && s.statsFolds + pos <= s.statsTokens
+//@                    0 <= left && left <= pos && pos <= 6 && left < 5 && 2 <= pos - left && wfT(lastComment) && foldWin(s, pos, lastComment)
 //@   loop 4 invariant (foldM1(s, more) < outer(foldM1(s, more)) || (foldM1(s, more) == outer(foldM1(s, more)) && more == outer(more) && (pos < outer(pos) || (pos == outer(pos) &&
 //@                    (foldC(s, pos) < outer(foldC(s, pos)) || (foldC(s, pos) == outer(foldC(s, pos)) && left == outer(left) && foldPhi(s, pos) <= outer(foldPhi(s, pos))))))))
 //@   loop 4 decreases s.length - s.pos + (more ? 1 : 0)
+
+// ---- fingerprint, decision
+//@ spec evilFP(s *sqliState) bool = len(s.fingerprint) == 1 && s.fingerprint[0] == 'X'
+//@ spec fpAt(s *sqliState, i int) bool = i < len(s.fingerprint) ==> s.fingerprint[i] == catAt(s, i) && inSigma(s.fingerprint[i]) &&
+//@      (s.fingerprint[i] == sqliTokenTypeComment ==> i == len(s.fingerprint) - 1)
+//@ spec fpOK(s *sqliState) bool = len(s.fingerprint) <= 5 && fpAt(s, 0) && fpAt(s, 1) && fpAt(s, 2) && fpAt(s, 3) && fpAt(s, 4)
+//@ spec tokOKAt(s *sqliState, i int) bool = wfT(s.tokenVec[i]) || (len(s.fingerprint) > 2 && i == len(s.fingerprint) - 1)
+//@ spec toksOK(s *sqliState) bool = tokOKAt(s, 0) && tokOKAt(s, 1) && tokOKAt(s, 2) && tokOKAt(s, 3) && tokOKAt(s, 4) && tokOKAt(s, 5) && tokOKAt(s, 6) && tokOKAt(s, 7)
+//@ spec order2(s *sqliState) bool = s.statsFolds == 0 && len(s.fingerprint) == 2 && catAt(s, 1) == sqliTokenTypeComment ==>
+//@      tokEnd(s, 0) <= s.tokenVec[1].pos && tokEnd(s, 1) <= s.length
+//@ func (*sqliState).sqliFingerprint
+//@   modifies s.*, s.tokenVec[*].*
+//@   ensures  wfS0(s) && statsOK(s) && aliases(s.input, old(s.input)) && s.length == len(s.input) && s.flags == (flags == 0 ? 9 : flags)
+//@   ensures  [C01 C08] @length len(s.fingerprint) <= 5 && aliases(result, s.fingerprint)
+//@   ensures  [C01 C08] @fp evilFP(s) || fpOK(s)
+//@   ensures  [C01] @tokens evilFP(s) || (toksOK(s) && 0 <= s.statsFolds && s.statsFolds + len(s.fingerprint) <= s.statsTokens && order2(s))
+//@   loop 1 invariant 0 <= i && i <= length && length <= 6 && len(fp) == i && wfS0(s) && statsOK(s) && aliases(s.input, old(s.input)) &&
+//@                    s.length == len(s.input) && s.flags == (flags == 0 ? 9 : flags) && (length == 6 ==> s.tokenVec[5].category == sqliTokenTypeEvil && i <= 5)
+//@   loop 1 invariant [C01 C08] forall j in [0, i): fp[j] == catAt(s, j) && catAt(s, j) != sqliTokenTypeEvil
+//@   loop 1 decreases length - i
+
+//@ func (*sqliState).blacklist
+//@   requires forall i in [0, len(s.fingerprint)): s.fingerprint[i] < 128
+//@   modifies nothing
+//@   ensures  [C01 C08] @nonempty result ==> len(s.fingerprint) >= 1
+//@   ensures  [C01] @two result && len(s.fingerprint) == 2 ==> up(s.fingerprint[1]) == 'C' || up(s.fingerprint[1]) == 'U'
+//@   loop 1 invariant 0 <= i && i <= length && length == len(s.fingerprint) && len(fp) == i + 1 && fp[0] == '0'
+//@   loop 1 invariant [C01] forall j in [0, i): fp[j + 1] == up(s.fingerprint[j])
+//@   loop 1 decreases length - i
+
+//@ func (*sqliState).notWhitelist
+//@   requires s.length == len(s.input)
+//@   requires len(s.fingerprint) == 2 ==> wfT(s.tokenVec[0]) && wfT(s.tokenVec[1]) && s.fingerprint[1] == catAt(s, 1) &&
+//@            (s.fingerprint[1] == sqliTokenTypeUnion || s.fingerprint[1] == sqliTokenTypeComment) &&
+//@            0 <= s.statsFolds && s.statsFolds + 2 <= s.statsTokens && order2(s)
+//@   requires len(s.fingerprint) == 3 ==> wfT(s.tokenVec[1])
+//@   modifies nothing
+
+//@ func (*sqliState).check
+//@   requires s.length == len(s.input)
+//@   modifies s.*, s.tokenVec[*].*
+//@   ensures  aliases(s.input, old(s.input))
+//@   ensures  [C08] @fingerprint result ==> 1 <= len(s.fingerprint) && len(s.fingerprint) <= 5 && (evilFP(s) || fpOK(s))
+
+//@ func IsSQLi
+//@   modifies nothing
+//@   ensures  [C08] @consistent (result0 ==> 1 <= len(result1) && len(result1) <= 5) && (!result0 ==> len(result1) == 0)
